@@ -195,7 +195,7 @@ def validate(v, module, rows, d, describe, name):
 
 def describe_agg(evs, ev, inv, bad):
     head = next((e for e in evs if e["ev"] == "Run"), {})
-    nrep = sum(1 for e in evs if e["ev"] == "Report")
+    nrep = sum(1 for e in evs if e["ev"] == "Report") + sum(e["n"] for e in evs if e["ev"] == "Reports")
     nline = sum(1 for e in evs if e["ev"] in ("Line", "JLine", "BadLine"))
     end = next((e for e in evs if e["ev"] == "RunEnd"), {})
     brief = {k: ev.get(k) for k in ("ev", "c", "raw", "s", "dropped", "err", "partial", "lines") if k in ev}
@@ -244,12 +244,12 @@ def run(tier, v):
     ncases, cstates, ctrans, csamples = format_cases(v, vdrive, d)
     # M1 in-process
     agg_path = os.path.join(d, "agg.ndjson")
-    nruns, neng, ncan = (5000, 300, 1500) if thorough else (300, 24, 40)
-    vlib.run_driver(vdrive, ["agg", "-out", agg_path, "-runs", str(nruns), "-engine", str(neng), "-cancel", str(ncan)],
-                    timeout=3000)
+    nruns, neng, ncan, nstress = (5000, 300, 1500, 40) if thorough else (300, 24, 40, 4)
+    vlib.run_driver(vdrive, ["agg", "-out", agg_path, "-runs", str(nruns), "-engine", str(neng), "-cancel", str(ncan),
+                             "-dropstress", str(nstress)], timeout=3000)
     rows = vlib.read_ndjson(agg_path)
     agg_validated, agg_states = validate(v, "TraceAggregator", rows, d, describe_agg, "agg")
-    nrep = sum(1 for r in rows if r["ev"] == "Report")
+    nrep = sum(1 for r in rows if r["ev"] == "Report") + sum(r["n"] for r in rows if r["ev"] == "Reports")
     nlines = sum(1 for r in rows if r["ev"] in ("Line", "JLine"))
     ndrop = sum(r["dropped"] for r in rows if r["ev"] == "RunEnd")
     droprun = sum(1 for r in rows if r["ev"] == "RunEnd" and r["dropped"] > 0)
@@ -279,7 +279,7 @@ def run(tier, v):
         "in_process_runs": {"validated": agg_validated, "events": len(rows), "reports": nrep, "lines": nlines,
                             "dropped": ndrop, "runs_with_drops": droprun, "engine_runs": neng, "engine_runs_cancelled_midway": ncan,
                             "modes": {m: sum(1 for r in rows if r["ev"] == "Run" and r["mode"] == m)
-                                      for m in ("normal", "late", "burst", "engine", "cancel")},
+                                      for m in ("normal", "late", "burst", "engine", "cancel", "dropstress")},
                             "trace_spec_states": agg_states},
         "signal_runs": {"validated": sig_validated, "signalled": len(sigs), "self_ended": len(exits) - len(sigs),
                         "forced": sum(1 for e in exits if e.get("forced")),
